@@ -1398,10 +1398,25 @@ class SpanElement(ContentElement):
 
   ruby_attribute_qn = f"{{{xml_ns.TTS}}}ruby"
 
+  ruby_values = ("container", "base", "text", "delimiter", "baseContainer", "textContainer")
+
   @staticmethod
   def is_instance(xml_elem):
+    if xml_elem.tag != SpanElement.qn:
+      return False
+
+    ruby = SpanElement.get_ruby_attr(xml_elem)
+
     # tts:ruby="none", the initial value, denotes a span that is not a ruby element
-    return xml_elem.tag == SpanElement.qn and SpanElement.get_ruby_attr(xml_elem) in (None, "none")
+
+    if ruby in (None, "none"):
+      return True
+
+    if ruby not in SpanElement.ruby_values:
+      LOGGER.error("Unknown tts:ruby value %s, ignored", ruby)
+      return True
+
+    return False
 
   @staticmethod
   def get_ruby_attr(ttml_span):
